@@ -621,7 +621,12 @@ func (dsc *dataStoreCommand) bitfieldWrite(keyName string, ops []*bitfieldOp) (o
 						newValue = signExtend(newValue, bits)
 					}
 				case OFLOW_SAT:
-					newValue = saturateValue(op.signed, newValue, bits)
+					if op.signed {
+						// the sign of the operand tells which bound was crossed (a 64 bit sum has wrapped)
+						newValue = saturateValue(true, op.value, bits)
+					} else {
+						newValue = saturateValue(false, newValue, bits)
+					}
 				case OFLOW_FAIL:
 					results = append(results, nil)
 					continue
